@@ -277,43 +277,7 @@ impl Policy for ProbePolicy {
     }
 }
 
-/// The real roller prints to stdout when a compression step fails (`println!("err compressing…")`
-/// in fixed_window.rs); the harness's stdout is the observation stream, so while real code runs
-/// file descriptor 1 points to /dev/null. What the main loop has already handed to std's stdout is
-/// flushed to the real descriptor first, so nothing of the protocol is lost or reordered.
-struct StdoutGag {
-    saved: i32,
-}
-
-impl StdoutGag {
-    fn new() -> StdoutGag {
-        let _ = std::io::stdout().flush();
-        unsafe {
-            let saved = libc::dup(1);
-            let null = libc::open(b"/dev/null\0".as_ptr() as *const libc::c_char, libc::O_WRONLY);
-            if null >= 0 {
-                libc::dup2(null, 1);
-                libc::close(null);
-            }
-            StdoutGag { saved }
-        }
-    }
-}
-
-impl Drop for StdoutGag {
-    fn drop(&mut self) {
-        let _ = std::io::stdout().flush();
-        unsafe {
-            if self.saved >= 0 {
-                libc::dup2(self.saved, 1);
-                libc::close(self.saved);
-            }
-        }
-    }
-}
-
 pub struct Env {
-    _gag: StdoutGag,
     pub case: Case,
     pub scratch: Scratch,
     pub path: PathBuf,
@@ -360,7 +324,6 @@ impl Env {
             }
         })));
         Env {
-            _gag: StdoutGag::new(),
             case,
             scratch,
             path,
